@@ -245,7 +245,43 @@ def c17(tier, seed):
     return rel.check_ffi(tier, seed)
 
 
-CHECKS = {"C17": c17, "C14": c14, "C03": c03, "C13": c13, "C02": c02, "C18": c18, "C16": c16, "C06": c06, "C07": c07, "C09": c09, "C08": c08, "C04": c04, "C05": c05, "C01": c01, "C10": c10, "C11": c11, "C12": c12}
+def c19(tier, seed):
+    """special tokens only where the grammar names them: (a) grammars mixing text and token references in exact
+    mode (Trace_Tok), incl. tokenisation of names vs marker forms; (b) text-only regex / CFG grammars over
+    vocabularies whose special names overlap the grammar text (Trace_Regex / Trace_Cfg: mask has no special)."""
+    from . import exact, vocabs
+    res = core.Result("C19", tier, seed)
+    q = tier == "quick"
+    j1 = exact.tok_job("C19", seed, 90 if q else 3000)
+    # (b) text grammars; plus the recorded finding: complement lets special tokens in
+    j2 = exact.regex_job("C19", seed, 20 if q else 800)
+    j2["episodes"].insert(0, {"gid": "kf:complement-allows-special-tokens", "mode": "C19", "seed": 1, "steps": 0,
+                              "gram": {"kind": "lark", "text": "start: T\nT: ~/a/\n"},
+                              "cfgs": [{"vocab": vocabs.byte(0), "vid": 0, "slices": []}], "w": {}, "log_vocab": 1,
+                              "init_extra": {"rx": {"k": "not", "a": {"k": "lit", "s": [97]}}, "entry": "lark_term"},
+                              "script": [["mask", 0]]})
+    j3 = exact.cfg_job("C19", seed, 20 if q else 800)
+    parts = [("C19", "token-references", j1, "Trace_Tok"), ("C19b", "text-regex", j2, "Trace_Regex"), ("C19c", "text-cfg", j3, "Trace_Cfg")]
+
+    def go(p):
+        tag, part, job, module = p
+        return part, rel.drive_and_validate(tag, tier, seed, job, res, nshards=6 if q else 16, module=module, timeout=7200)
+
+    for part, rejects in core.parallel(go, parts, workers=3 if q else 1):
+        for rj in rejects:
+            res.violation(dict(rel.signature(rj), part=part), rj["replay"])
+    res.cov["rule"] = ("episodes = (a) random grammars mixing text literals with <name>, <[id]>, <[a-b,c]>, <[^..]>, <[*]> over "
+                       "vocabularies whose special-token names overlap grammar text; TLC keeps a set of Earley charts (token "
+                       "read as bytes / as itself) and requires every mask to be exactly the tokens with a surviving reading; "
+                       "tokenisation probes: a name as plain text never yields a special id, marker forms yield exactly it; "
+                       "(b) text-only regex / EBNF grammars: no special token and no bare marker in any mask")
+    res.assumptions += ["token sets of one grammar are pairwise identical or disjoint (overlapping token-identity terminals are "
+                        "confusable terminals); a token that can be read both ways continues with the identity reading, as "
+                        "the implementation does; no rollback in these episodes"]
+    return res
+
+
+CHECKS = {"C19": c19, "C17": c17, "C14": c14, "C03": c03, "C13": c13, "C02": c02, "C18": c18, "C16": c16, "C06": c06, "C07": c07, "C09": c09, "C08": c08, "C04": c04, "C05": c05, "C01": c01, "C10": c10, "C11": c11, "C12": c12}
 
 
 def setup():
@@ -256,7 +292,7 @@ def setup():
 SPEC_OF = {"C01": ("Trace_EngineRel", "Trace_EngineRel_all.cfg"), "C10": ("Trace_EngineRel", "Trace_EngineRel_func.cfg"),
            "C11": ("Trace_EngineRel", "Trace_EngineRel_func.cfg"), "C12": ("Trace_EngineRel", "Trace_EngineRel_func.cfg"),
            "C04": ("Trace_Regex", None), "C05": ("Trace_Cfg", None), "C08": ("Trace_Numeric", None),
-           "C09": ("Trace_Count", None), "C16": ("Trace_Naive", None), "C02": ("Trace_Split", None), "C17": ("Trace_Ffi", None), "C14": ("Trace_EngineRel", "Trace_EngineRel_func.cfg"), "C03": ("Trace_EngineRel", "Trace_EngineRel_all.cfg"), "C13": ("Trace_Split", None), "C18": ("Trace_EngineRel", "Trace_EngineRel_all.cfg"), "C06": ("Trace_Json", None), "C07": ("Trace_Json", None)}
+           "C09": ("Trace_Count", None), "C16": ("Trace_Naive", None), "C02": ("Trace_Split", None), "C19": ("Trace_Tok", "Trace_Tok.cfg"), "C17": ("Trace_Ffi", None), "C14": ("Trace_EngineRel", "Trace_EngineRel_func.cfg"), "C03": ("Trace_EngineRel", "Trace_EngineRel_all.cfg"), "C13": ("Trace_Split", None), "C18": ("Trace_EngineRel", "Trace_EngineRel_all.cfg"), "C06": ("Trace_Json", None), "C07": ("Trace_Json", None)}
 
 
 def replay(prop, path):
